@@ -413,6 +413,21 @@ func drawText(t *rapid.T, k int) string {
 			rs = append(rs, base...)
 		}
 	}
+	if rapid.IntRange(0, 29).Draw(t, "sizeclass") == 0 {
+		// exactly on, one below and one above the power-of-two sizes of internal buffers (x/text transform
+		// works in 4 KiB blocks; 2048 UCS-2 characters are 4096 octets)
+		target := rapid.SampledFrom([]int{2047, 2048, 2049, 4095, 4096, 4097, 8191, 8192, 8193}).Draw(t, "target")
+		pad := pools[k][rapid.IntRange(0, len(pools[k])-1).Draw(t, "padrune")]
+		if len(rs) > target {
+			rs = rs[:target]
+		}
+		at := rapid.IntRange(0, len(rs)).Draw(t, "padat")
+		fill := make([]rune, target-len(rs))
+		for i := range fill {
+			fill[i] = pad
+		}
+		rs = append(rs[:at:at], append(fill, rs[at:]...)...)
+	}
 	s := string(rs)
 	if !utf8.ValidString(s) {
 		return "x"
